@@ -382,6 +382,47 @@ fn run_op(w: &mut World, op: &Value) -> Value {
                 None => json!("unknown transform"),
             }
         }
+        "validate_block_structure" => {
+            // txs: labels; equal labels = the same transaction; label 0 = a coinbase
+            let labels: Vec<u64> = op["txs"].as_array().unwrap().iter().map(|x| x.as_u64().unwrap()).collect();
+            let mk = |l: u64| -> bitcoin::Transaction {
+                if l == 0 {
+                    TransactionBuilder::coinbase().with_output(&address(1), 50).build()
+                } else {
+                    TransactionBuilder::new()
+                        .with_input(bitcoin::OutPoint { txid: bitcoin::Txid::from_str(&format!("{:064x}", l)).unwrap(), vout: 0 }, None)
+                        .with_output(&address(l), 1000 + l)
+                        .build()
+                }
+            };
+            let txdata: Vec<bitcoin::Transaction> = labels.iter().map(|l| mk(*l)).collect();
+            let committed: Vec<bitcoin::Transaction> = match op["merkle"].as_str() {
+                Some("of_prefix") => txdata[..op["prefix"].as_u64().unwrap() as usize].to_vec(),
+                _ => txdata.clone(),
+            };
+            let root = bitcoin::merkle_tree::calculate_root(committed.iter().map(|t| *t.compute_txid().as_raw_hash()));
+            use bitcoin::hashes::Hash;
+            let mut merkle_root = match root {
+                Some(r) => bitcoin::TxMerkleNode::from_raw_hash(r),
+                None => bitcoin::TxMerkleNode::from_raw_hash(bitcoin::hashes::sha256d::Hash::all_zeros()),
+            };
+            if op["merkle"].as_str() == Some("wrong") {
+                merkle_root = bitcoin::TxMerkleNode::from_raw_hash(bitcoin::hashes::sha256d::Hash::hash(b"wrong"));
+            }
+            let header = Header {
+                version: bitcoin::block::Version::from_consensus(1),
+                prev_blockhash: bitcoin::BlockHash::from_raw_hash(bitcoin::hashes::sha256d::Hash::all_zeros()),
+                merkle_root,
+                time: 0,
+                bits: bitcoin::CompactTarget::from_consensus(0x207fffff),
+                nonce: 0,
+            };
+            let block = bitcoin::Block { header, txdata };
+            match ic_btc_validation::verif_validate_block_structure(&block) {
+                Ok(()) => json!("Ok"),
+                Err(e) => json!(format!("{:?}", e)),
+            }
+        }
         "tree" => {
             let hashes = with_state(|s| unstable_blocks::get_block_hashes(&s.unstable_blocks));
             json!({"blocks": hashes.iter().map(|h| block_id_of(w, &h.to_vec())).collect::<Vec<_>>(),
